@@ -4,12 +4,45 @@ package main
 
 import (
 	"go/token"
+	"go/types"
 	"strings"
 
 	"golang.org/x/tools/go/ssa"
 )
 
 const c14catalogService = "(*" + apiPkg + ".Catalog).Service"
+
+// c14isCatalogQuery: the call asks consul's catalog for the instances of a service: (*api.Catalog).Service itself, or a
+// call that leaves the repository (a library function, a method of an interface put in front of the client) and
+// returns a list of catalog entries together with an error.
+func c14isCatalogQuery(cc *ssa.CallCommon) bool {
+	if calleeName(cc) == c14catalogService {
+		return true
+	}
+	if sc := cc.StaticCallee(); sc != nil && isRepoFn(sc) {
+		return false
+	}
+	if !cc.IsInvoke() && cc.StaticCallee() == nil {
+		return false // a function value: followed to the functions it denotes
+	}
+	if cc.IsInvoke() && len(c14callees(cc)) > 0 {
+		return false // an interface the repository implements itself: followed into the implementations
+	}
+	res := cc.Signature().Results()
+	entries, hasErr := false, false
+	for k := 0; k < res.Len(); k++ {
+		t := res.At(k).Type()
+		if c14isErrorType(t) {
+			hasErr = true
+		}
+		if sl, ok := t.Underlying().(*types.Slice); ok {
+			if pt, ok := sl.Elem().(*types.Pointer); ok && namedIs(pt.Elem(), "api.CatalogService") {
+				entries = true
+			}
+		}
+	}
+	return entries && hasErr
+}
 
 // c14chanOrigins: the make(chan) instructions a channel value can come from.
 func c14chanOrigins(v ssa.Value) map[*ssa.MakeChan]bool {
@@ -253,6 +286,34 @@ func c14resolveArg(v ssa.Value) ssa.Value {
 	return v
 }
 
+const c14errgroupGo = "(*golang.org/x/sync/errgroup.Group).Go"
+
+// c14isSpawn: the instruction starts a goroutine: a go statement, or a call of (*errgroup.Group).Go.
+func c14isSpawn(i ssa.Instruction) bool {
+	if _, isGo := i.(*ssa.Go); isGo {
+		return true
+	}
+	call, ok := i.(*ssa.Call)
+	return ok && calleeName(&call.Call) == c14errgroupGo && len(call.Call.Args) == 2
+}
+
+// c14started: the repository functions the instruction starts as goroutines.
+func c14started(i ssa.Instruction) []*ssa.Function {
+	switch x := i.(type) {
+	case *ssa.Go:
+		return c14callees(&x.Call)
+	case *ssa.Call:
+		if c14isSpawn(x) {
+			fs := funcsOf(x.Call.Args[1])
+			if len(fs) == 0 {
+				fs = c14tableFuncs(x.Call.Args[1])
+			}
+			return fs
+		}
+	}
+	return nil
+}
+
 // c14regionNoGo: f, the repository functions it calls or defers (transitively, any package), and the closures it makes
 // - except the functions it only starts as goroutines.
 func c14regionNoGo(root *ssa.Function, depth int) []*ssa.Function {
@@ -270,14 +331,12 @@ func c14regionNoGo(root *ssa.Function, depth int) []*ssa.Function {
 		}
 		started := map[*ssa.Function]bool{}
 		eachInstr(f, func(i ssa.Instruction) {
-			if gi, ok := i.(*ssa.Go); ok {
-				for _, g := range c14callees(&gi.Call) {
-					started[g] = true
-				}
+			for _, g := range c14started(i) {
+				started[g] = true
 			}
 		})
 		eachInstr(f, func(i ssa.Instruction) {
-			if _, isGo := i.(*ssa.Go); isGo {
+			if c14isSpawn(i) {
 				return
 			}
 			for _, op := range i.Operands(nil) {
@@ -306,8 +365,14 @@ func c14regionNoGo(root *ssa.Function, depth int) []*ssa.Function {
 func runC14I1(c *Ctx) {
 	// role: the functions that ask the catalog for the instances of one service
 	query := map[*ssa.Function]bool{}
-	for _, f := range c.AllFns {
-		if fnCalls(f, c14catalogService) {
+	for _, f := range c14fns(c) {
+		hit := false
+		eachInstr(f, func(i ssa.Instruction) {
+			if cc := callCommon(i); cc != nil && c14isCatalogQuery(cc) {
+				hit = true
+			}
+		})
+		if hit {
 			query[f] = true
 		}
 	}
@@ -345,19 +410,21 @@ func runC14I1(c *Ctx) {
 
 	// ---- per-service goroutines ----
 	type spawn struct {
-		gi *ssa.Go
+		gi ssa.CallInstruction // the go statement, or the call of (*errgroup.Group).Go
 		g  *ssa.Function
+		// worker: the goroutine takes the services from a channel: its job loop, and the loops that fill that channel
+		worker    *loop
+		producers []*loop
 	}
-	var spawns []spawn
-	for _, f := range c.AllFns {
+	var spawns []*spawn
+	for _, f := range c14fns(c) {
 		eachInstr(f, func(i ssa.Instruction) {
-			gi, ok := i.(*ssa.Go)
-			if !ok {
+			if !c14isSpawn(i) {
 				return
 			}
-			for _, g := range c14callees(&gi.Call) {
+			for _, g := range c14started(i) {
 				if g != nil && isRepoFn(g) && len(g.Blocks) > 0 && reaches(g) {
-					spawns = append(spawns, spawn{gi, g})
+					spawns = append(spawns, &spawn{gi: i.(ssa.CallInstruction), g: g})
 				}
 			}
 		})
@@ -421,7 +488,6 @@ func runC14I1(c *Ctx) {
 				"each per-service goroutine ("+fnKey(g)+") must hand over its (possibly empty) result exactly once on every path - a send on the result channel, or a store followed by WaitGroup.Done with the spawner waiting for the group; "+why)
 			continue
 		}
-		okSend := mustExec(g, isSend, 0)
 		// at most once: nothing that sends on the result channel - whatever value - (or calls / defers a helper that
 		// may) can be followed by another one
 		onResultChan := func(i ssa.Instruction) bool {
@@ -451,10 +517,25 @@ func runC14I1(c *Ctx) {
 		})
 		var sites []ssa.Instruction
 		eachInstr(g, func(i ssa.Instruction) {
-			if _, isGo := i.(*ssa.Go); !isGo && may(i) {
+			if !c14isSpawn(i) && may(i) {
 				sites = append(sites, i)
 			}
 		})
+		// the other way of limiting concurrency: a fixed number of workers that take the services from a channel. The
+		// unit is then one iteration of the worker's job loop instead of one goroutine.
+		if jl, jobs := c14jobLoop(sites); jl != nil {
+			okWorker, why := c14workerIteration(jl, jobs, sites, liftMust(isSend, 1))
+			var prod []*loop
+			if okWorker {
+				prod, why = c14jobProducers(c, jobs, g)
+				okWorker = why == ""
+			}
+			sp.worker, sp.producers = jl, prod
+			c.check("C14.I1", fnKey(g)+"|exactly one result per service on every path", g.Pos(), okWorker,
+				"each worker ("+fnKey(g)+") must send exactly one (possibly empty) result for every service it takes from the job channel and keep taking services until that channel is closed, and every service must be put on the job channel exactly once; "+why)
+			continue
+		}
+		okSend := mustExec(g, isSend, 0)
 		for _, a := range sites {
 			for _, b := range sites {
 				if pathAvoiding(a, b, nil) {
@@ -478,7 +559,7 @@ func runC14I1(c *Ctx) {
 				inGoroutine[f] = true
 			}
 		}
-		for _, f := range c.AllFns {
+		for _, f := range c14fns(c) {
 			if inGoroutine[f] {
 				continue
 			}
@@ -537,6 +618,16 @@ func runC14I1(c *Ctx) {
 				cnt := c14resolveArg(cntColl)
 				match := false
 				for _, sp := range spawns {
+					if sp.worker != nil {
+						// as many results as services put on the job channel
+						for _, pl := range sp.producers {
+							pc, _ := c14loopCount(pl)
+							if x := c14resolveArg(pc); x != nil && cnt != nil && x == cnt {
+								match = true
+							}
+						}
+						continue
+					}
 					var at ssa.Instruction = sp.gi
 					sl := c14innermostLoop(at)
 					if sl == nil {
@@ -552,7 +643,7 @@ func runC14I1(c *Ctx) {
 					}
 				}
 				if !match {
-					okLoop, why = false, "the number of iterations is not the number of goroutines spawned (both loops must run len(X) times for the same X)"
+					okLoop, why = false, "the number of iterations is not the number of goroutines spawned / of services handed to the workers (both loops must run len(X) times for the same X)"
 				}
 			}
 			c.check("C14.I1", fnKey(rc.u.Parent())+"|collector takes exactly one result per service", rc.u.Pos(), okLoop,
@@ -571,7 +662,7 @@ func runC14I1(c *Ctx) {
 		if !ok {
 			return false
 		}
-		if calleeName(&call.Call) == c14catalogService {
+		if c14isCatalogQuery(&call.Call) {
 			return true
 		}
 		for _, g := range c14callees(&call.Call) {
@@ -584,7 +675,7 @@ func runC14I1(c *Ctx) {
 	// wherever that error value arrives: from there on nothing ends the process or panics unless the error is known
 	// to be nil, and the function can still return
 	nTested := 0
-	for _, f := range c.AllFns {
+	for _, f := range c14fns(c) {
 		if !reaches(f) {
 			continue
 		}
@@ -634,7 +725,7 @@ func runC14I1(c *Ctx) {
 	c.atLeast("C14.I1", "places where the error of the per-service catalog query is received", nTested, 1)
 	// the function whose result a goroutine hands over returns only its own slice: nil, a fresh slice, or what it
 	// appended to
-	for _, f := range c.AllFns {
+	for _, f := range c14fns(c) {
 		if !producers[f] {
 			continue
 		}
@@ -653,6 +744,203 @@ func runC14I1(c *Ctx) {
 		c.check("C14.I1", fnKey(f)+"|returns only its own slice", f.Pos(), okRet,
 			fnKey(f)+" must return nil or the slice it built itself on every path (a slice shared with other services or kept from an earlier run mixes registrations)")
 	}
+}
+
+// c14jobLoop: all places of a goroutine that (may) send a result lie in one loop of it that takes a value from a
+// channel at the start of every iteration (`for j := range jobs`, `for { j, ok := <-jobs; if !ok { return } ... }`):
+// that loop and the receive. nil when the goroutine is not of that shape.
+func c14jobLoop(sites []ssa.Instruction) (*loop, *ssa.UnOp) {
+	if len(sites) == 0 {
+		return nil, nil
+	}
+	var jl *loop
+	for _, s := range sites {
+		l := c14innermostLoop(s)
+		if l == nil || (jl != nil && jl.Head != l.Head) {
+			return nil, nil
+		}
+		jl = l
+	}
+	var recv *ssa.UnOp
+	for b := range jl.Body {
+		for _, in := range b.Instrs {
+			u, ok := in.(*ssa.UnOp)
+			if !ok || u.Op != token.ARROW {
+				continue
+			}
+			// taken in every iteration, before any result is sent
+			every := true
+			for _, s := range sites {
+				if !dominatesInstr(u, s) {
+					every = false
+				}
+			}
+			if every && (b == jl.Head || b.Dominates(jl.Head) || c14dominatesBackEdges(jl, b)) {
+				recv = u
+			}
+		}
+	}
+	if recv == nil {
+		return nil, nil
+	}
+	return jl, recv
+}
+
+func c14dominatesBackEdges(l *loop, b *ssa.BasicBlock) bool {
+	n := 0
+	for _, p := range l.Head.Preds {
+		if !l.Body[p] {
+			continue
+		}
+		n++
+		if p != b && !b.Dominates(p) {
+			return false
+		}
+	}
+	return n > 0
+}
+
+// c14workerIteration: in job loop jl, after a job has been taken (recv), exactly one result is sent before the next
+// one is taken, on every path, and the loop is left only where the job channel turns out to be closed.
+func c14workerIteration(jl *loop, recv *ssa.UnOp, sites []ssa.Instruction, isSend func(ssa.Instruction) bool) (bool, string) {
+	// the edge on which the channel is known to be closed / the value is not a job
+	closedExit := func(from, to *ssa.BasicBlock) bool {
+		if len(from.Instrs) == 0 {
+			return false
+		}
+		iff, ok := from.Instrs[len(from.Instrs)-1].(*ssa.If)
+		if !ok || len(from.Succs) != 2 {
+			return false
+		}
+		cond, truth := iff.Cond, from.Succs[0] == to
+		for {
+			u, isNot := cond.(*ssa.UnOp)
+			if !isNot || u.Op != token.NOT {
+				break
+			}
+			cond, truth = u.X, !truth
+		}
+		ex, ok := cond.(*ssa.Extract)
+		return ok && ex.Tuple == ssa.Value(recv) && ex.Index == 1 && !truth
+	}
+	type item struct {
+		b   *ssa.BasicBlock
+		idx int
+	}
+	// at least once: from the receive, neither the next receive (the head) nor the end of the loop is reached without a send
+	seen := map[*ssa.BasicBlock]bool{}
+	stack := []item{{recv.Block(), instrIndex(recv) + 1}}
+	for len(stack) > 0 {
+		it := stack[len(stack)-1]
+		stack = stack[:len(stack)-1]
+		blocked := false
+		for k := it.idx; k < len(it.b.Instrs); k++ {
+			in := it.b.Instrs[k]
+			if isSend(in) {
+				blocked = true
+				break
+			}
+			if _, isRet := in.(*ssa.Return); isRet {
+				return false, "a worker can return after taking a service without sending a result for it"
+			}
+		}
+		if blocked {
+			continue
+		}
+		for _, sx := range it.b.Succs {
+			if closedExit(it.b, sx) {
+				continue
+			}
+			if sx == jl.Head || !jl.Body[sx] {
+				return false, "a worker can go on (or stop) after taking a service without sending a result for it"
+			}
+			if !seen[sx] {
+				seen[sx] = true
+				stack = append(stack, item{sx, 0})
+			}
+		}
+	}
+	// at most once: no send can be followed by another one before the next job is taken
+	for _, a := range sites {
+		for _, b := range sites {
+			if pathAvoiding(a, b, func(i ssa.Instruction) bool { return i == ssa.Instruction(recv) }) {
+				return false, "a worker can send two results for one service"
+			}
+		}
+	}
+	// the worker stays: the loop is left only where the job channel is closed
+	for b := range jl.Body {
+		for _, sx := range b.Succs {
+			if !jl.Body[sx] && !closedExit(b, sx) {
+				return false, "a worker can stop taking services before the job channel is closed (the remaining services are never answered)"
+			}
+		}
+		for _, in := range b.Instrs {
+			if _, isRet := in.(*ssa.Return); isRet {
+				return false, "a worker can stop taking services before the job channel is closed (the remaining services are never answered)"
+			}
+		}
+	}
+	return true, ""
+}
+
+// c14jobProducers: the loops that put the services on the job channel the workers read: every send on that channel
+// (outside the worker) lies in a loop with a countable number of iterations and happens exactly once per iteration.
+func c14jobProducers(c *Ctx, recv *ssa.UnOp, worker *ssa.Function) ([]*loop, string) {
+	jobs := c14chanOrigins(recv.X)
+	if len(jobs) == 0 {
+		return nil, "the job channel cannot be identified"
+	}
+	inWorker := map[*ssa.Function]bool{}
+	for _, f := range c14regionNoGo(worker, 3) {
+		inWorker[f] = true
+	}
+	var out []*loop
+	why := ""
+	for _, f := range c14fns(c) {
+		if inWorker[f] {
+			continue
+		}
+		eachInstr(f, func(i ssa.Instruction) {
+			s, ok := i.(*ssa.Send)
+			if !ok || why != "" {
+				return
+			}
+			same := false
+			for mc := range c14chanOrigins(s.Chan) {
+				if jobs[mc] {
+					same = true
+				}
+			}
+			if !same {
+				return
+			}
+			l := c14innermostLoop(s)
+			if l == nil {
+				why = "a service is put on the job channel outside a loop over the services"
+				return
+			}
+			if coll, _ := c14loopCount(l); coll == nil {
+				why = "the loop that puts the services on the job channel has no countable number of iterations"
+				return
+			}
+			if !(s.Block() == l.Head || c14dominatesBackEdges(l, s.Block())) {
+				why = "a service can be skipped when the job channel is filled"
+				return
+			}
+			for _, o := range out {
+				if o.Head == l.Head {
+					why = "a service is put on the job channel twice"
+					return
+				}
+			}
+			out = append(out, l)
+		})
+	}
+	if why == "" && len(out) == 0 {
+		why = "nothing puts the services on the job channel"
+	}
+	return out, why
 }
 
 // c14ownSlice: the slice value is nil, freshly made, or an append to / a reslice of such a slice - not a load from a
@@ -711,13 +999,23 @@ func c14ownSlice(v ssa.Value, d int, seen map[ssa.Value]bool) bool {
 
 // ---- P4 ------------------------------------------------------------------------------------------------------
 
-// c14FiniteWeight: in the parser (the region of route.Parse) a float obtained from strconv.ParseFloat is handed out
-// only where it is known to be neither NaN nor infinite - directly (math.IsNaN / math.IsInf / f != f) or through a
-// repository predicate that implies it.
+// c14FiniteWeight: in the parser (everything route.Parse can reach in its package: through static calls, through a
+// table of builder functions, through a small interface) a float obtained from strconv.ParseFloat is handed out only
+// where it is known to be neither NaN nor infinite - directly (math.IsNaN / math.IsInf / f != f / an ordered comparison
+// that holds) or through a repository predicate that implies it. A float that is returned unjudged is followed to the
+// callers of the function (the judgement may have moved there).
 func c14FiniteWeight(c *Ctx, rule string) {
 	parse := c.fn("route", "Parse")
 	if !c.need(rule, parse, "route.Parse") {
 		return
+	}
+	isFloatConst := func(v ssa.Value) bool {
+		k, ok := v.(*ssa.Const)
+		if !ok || k.Value == nil {
+			return false
+		}
+		b, ok := k.Type().Underlying().(*types.Basic)
+		return ok && b.Info()&(types.IsFloat|types.IsInteger) != 0
 	}
 	leaf := func(env c14env, tracked func(ssa.Value) bool) map[string]bool {
 		labels := map[string]bool{}
@@ -742,6 +1040,34 @@ func c14FiniteWeight(c *Ctx, rule string) {
 			if x, op, y, ok := c14cmp(ft); ok && op == token.EQL && x == y && about(x) {
 				labels["nan"] = true
 			}
+			// an ordered comparison with a (finite) constant: `f <= K` that HOLDS excludes NaN and +Inf, `f > K` that does
+			// NOT hold excludes +Inf only (it is false for NaN as well)
+			if b, ok := ft.Cond.(*ssa.BinOp); ok {
+				x, y, op := b.X, b.Y, b.Op
+				if isFloatConst(x) && !isFloatConst(y) {
+					x, y, op = y, x, c14flip(op)
+				}
+				if isFloatConst(y) && !isFloatConst(x) && about(x) {
+					switch op {
+					case token.LSS, token.LEQ:
+						if ft.Truth {
+							pos, labels["nan"] = true, true
+						} else {
+							neg = true
+						}
+					case token.GTR, token.GEQ:
+						if ft.Truth {
+							neg, labels["nan"] = true, true
+						} else {
+							pos = true
+						}
+					case token.EQL:
+						if ft.Truth {
+							pos, neg, labels["nan"] = true, true, true
+						}
+					}
+				}
+			}
 		}
 		if pos && neg {
 			labels["inf"] = true
@@ -749,8 +1075,7 @@ func c14FiniteWeight(c *Ctx, rule string) {
 		return labels
 	}
 	n := 0
-	for _, f := range c.regionDepth(6, parse) {
-		ff := f
+	for _, f := range c14reach(c, 8, parse) {
 		var floats []*ssa.Call
 		eachInstr(f, func(i ssa.Instruction) {
 			if call, ok := i.(*ssa.Call); ok && calleeName(&call.Call) == "strconv.ParseFloat" {
@@ -758,17 +1083,17 @@ func c14FiniteWeight(c *Ctx, rule string) {
 			}
 		})
 		for _, pf := range floats {
-			isParsed := func(v ssa.Value) bool {
-				ex, ok := v.(*ssa.Extract)
-				return ok && ex.Tuple == ssa.Value(pf) && ex.Index == 0
-			}
+			// the values that stand for the parsed float: the result of ParseFloat, and the results of the repository
+			// functions that return it unjudged
+			tracked := map[ssa.Value]bool{}
+			isTracked := func(v ssa.Value) bool { return tracked[v] }
 			finiteOn := func(blk *ssa.BasicBlock, edge *c14env) bool {
 				env := c14envAt(blk, edge)
-				labels := leaf(env, isParsed)
+				labels := leaf(env, isTracked)
 				for _, v := range env.verdicts() {
 					var idx []int
 					for k, a := range v.Call.Call.Args {
-						if c14derives(a, isParsed) {
+						if c14derives(a, isTracked) {
 							idx = append(idx, k)
 						}
 					}
@@ -779,15 +1104,16 @@ func c14FiniteWeight(c *Ctx, rule string) {
 				return labels["nan"] && labels["inf"]
 			}
 			finiteAt := func(blk *ssa.BasicBlock) bool { return finiteOn(blk, nil) }
-			// where the parsed float leaves the function (returned, stored, converted, passed on): every such use
-			// - directly or after merges - lies where the value is known to be finite
+			// where the parsed float leaves the parser (stored, converted, passed on, returned to code that does not
+			// judge it): every such use - directly or after merges - lies where the value is known to be finite
 			seen := map[ssa.Value]bool{}
-			var follow func(v ssa.Value)
-			follow = func(v ssa.Value) {
+			var follow func(v ssa.Value, depth int)
+			follow = func(v ssa.Value, depth int) {
 				if seen[v] || v.Referrers() == nil {
 					return
 				}
 				seen[v] = true
+				owner := c14parent(v)
 				for _, r := range *v.Referrers() {
 					switch x := r.(type) {
 					case *ssa.DebugRef:
@@ -795,7 +1121,8 @@ func c14FiniteWeight(c *Ctx, rule string) {
 					case *ssa.Phi:
 						for k, e := range x.Edges {
 							if p := x.Block().Preds[k]; e == v && !finiteOn(p, c14edgeFact(p, x.Block())) {
-								follow(x)
+								tracked[x] = true
+								follow(x, depth)
 							}
 						}
 						continue
@@ -814,18 +1141,80 @@ func c14FiniteWeight(c *Ctx, rule string) {
 								continue
 							}
 						}
+						// handed to a repository function that takes the float (and its error) and judges it:
+						// `finiteWeight(parseWeight(s))`, `checked(f)`: followed into the parameter
+						if !finiteAt(x.Block()) && depth < 3 {
+							if moved := c14followArg(x, v, func(p *ssa.Parameter) {
+								tracked[p] = true
+								follow(p, depth+1)
+							}); moved {
+								continue
+							}
+						}
+					case *ssa.Return:
+						// returned unjudged: the callers take over (all of them must be visible)
+						if !finiteAt(x.Block()) && depth < 3 && owner != nil {
+							idx := -1
+							for k, res := range x.Results {
+								if res == v {
+									idx = k
+								}
+							}
+							sites, complete := c14allSites(owner)
+							if idx >= 0 && complete && len(sites) > 0 && len(sites) <= maxHelperSites {
+								for _, s := range sites {
+									cv, isVal := s.(ssa.Value)
+									if !isVal {
+										continue
+									}
+									if len(x.Results) == 1 {
+										tracked[cv] = true
+										follow(cv, depth+1)
+										continue
+									}
+									// the result tuple: its extracts, or the call it is passed to as a whole
+									if cv.Referrers() != nil {
+										for _, r2 := range *cv.Referrers() {
+											if ex, ok := r2.(*ssa.Extract); ok && ex.Index == idx {
+												tracked[ex] = true
+												follow(ex, depth+1)
+											}
+										}
+									}
+								}
+								continue
+							}
+						}
 					}
 					n++
-					c.check(rule, fnKey(ff)+"|parsed weight is finite", r.Pos(), finiteAt(r.Block()),
+					c.check(rule, fnKey(r.Parent())+"|parsed weight is finite", r.Pos(), finiteAt(r.Block()),
 						"strconv.ParseFloat accepts 'Inf' and 'NaN'; a non-finite weight becomes a NaN share in weighTargets, int(NaN) is a huge negative slot count and make() panics in the table update loop (no recover) - the parser must reject it")
 				}
 			}
 			eachInstr(f, func(i ssa.Instruction) {
-				if v, ok := i.(ssa.Value); ok && isParsed(v) {
-					follow(v)
+				if ex, ok := i.(*ssa.Extract); ok && ex.Tuple == ssa.Value(pf) && ex.Index == 0 {
+					tracked[ex] = true
+					follow(ex, 0)
 				}
 			})
 		}
 	}
 	c.atLeast(rule, "places where a float parsed by strconv.ParseFloat leaves the route parser", n, 1)
+}
+
+// c14followArg: call passes v to a repository function with a body; visit is called with the parameter that receives it.
+func c14followArg(call *ssa.Call, v ssa.Value, visit func(*ssa.Parameter)) bool {
+	moved := false
+	for _, g := range c14callees(&call.Call) {
+		if g == nil || !isRepoFn(g) || len(g.Blocks) == 0 {
+			return false
+		}
+		for k, p := range g.Params {
+			if c14argFor(call, g, k) == v {
+				visit(p)
+				moved = true
+			}
+		}
+	}
+	return moved
 }
